@@ -88,6 +88,7 @@ pub fn steer(mut scn: Scenario, targets: &[u8], order: &[u8]) -> Scenario {
                     method: *method,
                     arg: args[k % args.len()],
                     via: (t as usize + k) as u8,
+                    unwinding: false,
                 });
             }
         }
@@ -112,6 +113,7 @@ pub fn steer(mut scn: Scenario, targets: &[u8], order: &[u8]) -> Scenario {
             method: *m,
             arg: args[(i + cut_sel as usize) % args.len()],
             via: i as u8,
+            unwinding: false,
         });
     }
     // interleave: give every call a key, keep ordered calls in sequence order
@@ -160,6 +162,7 @@ pub fn check(scn: &Scenario) -> Result<CaseInfo, String> {
             let discarded = matches!(cmp.model_verdict, crate::model::Verdict::RecordedErrors(_));
             Ok(CaseInfo::new(on_boundary && npat >= 2 && !discarded)
                 .class(super::verdict_class(&cmp.model_verdict))
+                .class_if(scn.history.iter().any(|c| c.unwinding), "has-call-by-a-destructor-during-unwinding")
                 .class_if(violated >= 2, "two-or-more-violated-expectations")
                 .class_if(violated == 1, "one-violated-expectation")
                 .class_if(scn.verify == VerifyMode::Report, "via-report")
@@ -292,12 +295,14 @@ pub fn grid_scenario(cell: &GridCell) -> Scenario {
         method: 1,
         arg: 3,
         via: 0,
+        unwinding: false,
     }];
     for k in 0..cell.count {
         history.push(Call {
             method: 0,
             arg: k % ARGS,
             via: k % 2,
+            unwinding: false,
         });
     }
     Scenario {
@@ -309,7 +314,7 @@ pub fn grid_scenario(cell: &GridCell) -> Scenario {
     }
 }
 
-pub const RULE: &str = "steered = generated clause sets (unordered and ordered, chains of 1-3 segments) with a synthesised panic-free history in which every pattern is matched a target number of times drawn from {bound-1, bound, bound+1, 0, random}, ordered sequences cut at {end, end-1, 0, random}; verification through drop, verify() and report(); non-trivial = >= 2 patterns and >= 1 pattern with count in {bound-1, bound, bound+1}; distinct = distinct scenario. grid = exhaustive enumeration of entry form x quantifier kind x bound 0..3 x count {b-1,b,b+1,0} x verification route x strict/partial on a one-pattern mock next to an always-satisfied second method";
+pub const RULE: &str = "steered = generated clause sets (unordered and ordered, chains of 1-3 segments) with a synthesised panic-free history in which every pattern is matched a target number of times drawn from {bound-1, bound, bound+1, 0, random}, ordered sequences cut at {end, end-1, 0, random}; verification through drop, verify() and report(); non-trivial = >= 2 patterns and >= 1 pattern with count in {bound-1, bound, bound+1}; distinct = distinct scenario. grid = exhaustive enumeration of entry form x quantifier kind x bound 0..3 x count {b-1,b,b+1,0} x verification route x strict/partial on a one-pattern mock next to an always-satisfied second method. racing-* = every schedule of 2-3 threads x 1-2 calls (sampled up to 4x3) on one pattern quantified n_times(N) / n_times(N+1) for N calls through clones or a shared &Unimock: verification after join must be silent / name exactly that pattern (C10's scheduler)";
 
 pub fn run(ctx: &Ctx) -> Verdict {
     let mut v = Verdict::new("exploration", RULE);
@@ -343,11 +348,22 @@ pub fn run(ctx: &Ctx) -> Verdict {
     v.subs.push(vcore::run_enumerated(ctx, "boundary-grid", grid(), |cell| {
         check(&grid_scenario(cell)).map(|i| CaseInfo::new(true).class_if(!i.classes.is_empty(), i.classes[0]))
     }));
+    // counts under every interleaving: N racing calls on one pattern quantified n_times(N) (must verify silently)
+    // and n_times(N+1) (exactly that pattern's line): C10's scheduler, only the count can go wrong
+    #[cfg(feature = "std")]
+    for mut s in super::c10::run_kinds(ctx, &[(2, 1), (2, 2), (3, 1)], &[super::c10::Kind::ExactCount]) {
+        let renamed = format!("racing-{}", s.name);
+        s.rename(renamed);
+        v.subs.push(s);
+    }
     v.subs.extend(super::variant_reports(ctx, &["nostd-spin", "nostd-nomutex"]));
     v
 }
 
 pub fn replay(sub: &str, case: Value) -> Result<(), String> {
+    if sub.starts_with("racing") {
+        return super::c10::replay(sub, case);
+    }
     if sub == "boundary-grid" {
         // grid cells are regenerated: find the cell with the same JSON
         for cell in grid() {
